@@ -141,6 +141,73 @@ fn jv(v: &Value) -> serde_json::Value {
     }
 }
 
+
+/// Rebuilds a value from the JSON written by `jv` (maps and undefined included).
+fn vj(j: &serde_json::Value) -> Value {
+    if let Some(o) = j.as_object() {
+        if let Some(a) = o.get("arr") {
+            return Value::from(a.as_array().unwrap().iter().map(vj).collect::<Vec<_>>());
+        }
+        if let Some(m) = o.get("map") {
+            let mut out = Map::new();
+            for e in m.as_array().unwrap() {
+                let k = e[0].as_str().unwrap();
+                let (kind, rest) = k.split_once('(').unwrap();
+                let inner = &rest[..rest.len() - 1];
+                let key: Key<'static> = match kind {
+                    "Bool" => Key::Bool(inner == "true"),
+                    "U64" => Key::U64(inner.parse().unwrap()),
+                    "I64" => Key::I64(inner.parse().unwrap()),
+                    "U128" => Key::U128(inner.parse().unwrap()),
+                    "I128" => Key::I128(inner.parse().unwrap()),
+                    "String" => Key::String(std::sync::Arc::from(serde_json::from_str::<String>(inner).unwrap_or(inner.trim_matches('"').to_string()))),
+                    _ => Key::Str(leak(&serde_json::from_str::<String>(inner).unwrap_or(inner.trim_matches('"').to_string()))),
+                };
+                out.insert(key, vj(&e[1]));
+            }
+            return Value::from(out);
+        }
+    }
+    value_from_json(j)
+}
+
+/// `--replay file`: re-evaluate the recorded values on the current implementation.
+fn replay(path: &std::path::Path, tera: &Tera) {
+    let r: serde_json::Value = serde_json::from_str(&std::fs::read_to_string(path).expect("replay file")).expect("json");
+    let find = |k: &str| r.get(k).or_else(|| r.get("case").and_then(|c| c.get(k))).or_else(|| r.get("input").and_then(|c| c.get(k)));
+    let mut vals: Vec<Value> = Vec::new();
+    if let Some(vs) = find("values") { vals = vs.as_array().unwrap().iter().map(vj).collect(); }
+    if let (Some(a), Some(b)) = (find("a"), find("b")) { vals = vec![vj(a), vj(b)]; }
+    if vals.is_empty() {
+        if let (Some(m), Some(k)) = (find("m"), find("k")) {
+            let (m, k) = (vj(m), vj(k));
+            let mut ctx = Context::new();
+            ctx.insert_value("m", m);
+            ctx.insert_value("k", k);
+            for e in ["m[k]", "k in m", "m is containing(pat=k)", "m | get(key=k)"] {
+                println!("{e} => {}", eval_expr(tera, e, &ctx).json(jv));
+            }
+            return;
+        }
+        println!("nothing to replay in this record");
+        return;
+    }
+    for (i, a) in vals.iter().enumerate() {
+        for (j, b) in vals.iter().enumerate() {
+            let r = api(a, b);
+            if let Outcome::Ok(r) = r {
+                println!("[{i}] vs [{j}]: == {} partial_cmp {:?} cmp {:?}", r.eq, r.pcmp, r.cmp);
+            } else {
+                println!("[{i}] vs [{j}]: panic");
+            }
+        }
+    }
+    let x = Value::from(vals.clone());
+    let ctx = ctx_with("x", &x);
+    println!("x | unique => {}", eval_expr(tera, "x | unique", &ctx).json(jv));
+    println!("x | sort => {}", eval_expr(tera, "x | sort", &ctx).json(jv));
+}
+
 fn ctx_with(name: &'static str, v: &Value) -> Context {
     let mut c = Context::new();
     c.insert_value(name, v.clone());
@@ -176,6 +243,10 @@ fn main() {
     silence_panics();
     let mut tera = Tera::default();
     register_probe(&mut tera);
+    if let Some(p) = &args.replay {
+        replay(p, &tera);
+        return;
+    }
     let mut rng = Rng::new(args.seed);
     let thorough = args.tier == "thorough";
     let mut meta = Meta::default();
